@@ -11,6 +11,7 @@ EXPLANATION = (
     "advance/restore); (R3) checkpoints are validated before insertion and a fork bounds copied entries and checkpoints "
     "by the fork tick; (R4) the replay finaliser writes every replay-metadata field the checkpoint validator compares. "
     "Equality of states reached through different seek paths — the behavioural content — is NOT decided."
+    ' Round 2: guard strength (confirmed rejection relation, no new bypass condition) on the per-tick verification gates.'
 )
 ASSUMPTIONS = ["per-tick verification clauses are those of C05.R3", "state equality across paths is out of static reach"]
 FLOOR = 29
